@@ -223,3 +223,4 @@ def constructor(vc):
                                                     S.cmp("==", vc.attr(obj, "n_hyperpars"), nm + nc)))
     vc.ensures("kernel_and_mean_see_the_parameter_positions", cov.got is pos and mean.got is pos)
     vc.ensures("model_and_data_stored", vc.attr(obj, "A") is A and vc.attr(obj, "y") is y)
+import contracts.matrix_laws  # noqa: F401  (numerical self-test of the matrix layer's axioms)
